@@ -210,7 +210,7 @@ class C13A(DevProp):
     def gen(self, rng, tier):
         import agen, copy
         cases = []
-        PAX, OAX, CCX = agen.ABS_RY, agen.ABS_HAT0X, agen.ABS_X
+        PAX, OAX, CCX, KAX = agen.ABS_RY, agen.ABS_HAT0X, agen.ABS_X, agen.ABS_Z
         N1, N2, PKEY, MUP, MDN, CHU = 30, 31, 1, 65, 66, 63
 
         def a(code, val):
@@ -220,9 +220,14 @@ class C13A(DevProp):
                 neg = variant % 2 == 1
                 m0 = [agen.analog(PAX, "action", act="panic" if not neg else "octave_up", actneg="octave_down" if not neg else "panic", bidi=True),
                       agen.analog(OAX, "action", act="semitone_up", actneg="semitone_down", bidi=True),
-                      agen.analog(CCX, "cc", cc=20, ccneg=21, bidi=True)]
-                m1 = [agen.analog(PAX, "cc", cc=30), agen.analog(OAX, "cc", cc=31), agen.analog(CCX, "cc", cc=20, ccneg=21, bidi=True)]
-                absl = [{"code": PAX, "min": -32768, "max": 32767}, {"code": OAX, "min": -1, "max": 1}, {"code": CCX, "min": -128, "max": 127}]
+                      agen.analog(CCX, "cc", cc=20, ccneg=21, bidi=True),
+                      # a key-emulating trigger on the current channel: held across a panic it releases with at most a redundant Note Off
+                      # and starts nothing by itself
+                      agen.analog(KAX, "key", note=67, noteneg=65, off=0, offneg=0, bidi=True)]
+                m1 = [agen.analog(PAX, "cc", cc=30), agen.analog(OAX, "cc", cc=31), agen.analog(CCX, "cc", cc=20, ccneg=21, bidi=True),
+                      agen.analog(KAX, "key", note=67, noteneg=65, off=0, offneg=0, bidi=True)]
+                absl = [{"code": PAX, "min": -32768, "max": 32767}, {"code": OAX, "min": -1, "max": 1}, {"code": CCX, "min": -128, "max": 127},
+                        {"code": KAX, "min": 0, "max": 255}]
                 keys = [{"sub": "", "code": N1, "note": 60, "off": 0}, {"sub": "", "code": N2, "note": 64, "off": 3}]
                 cfg = agen.base_cfg(m0, keys=keys, cmode=cmode, n_maps=2, channel=rng.choice([1, 2, 9, 16]),
                                     actions=[{"code": PKEY, "action": "panic"}, {"code": MUP, "action": "mapping_up"}, {"code": MDN, "action": "mapping_down"},
@@ -236,6 +241,9 @@ class C13A(DevProp):
                     # note is held; the axis is deflected again (to another value): the burst must come again
                     ev = [k(N1, 1), a(PAX, full)] + tap(MUP) + [a(PAX, rest)] + tap(MDN) + [k(N2, 1), a(PAX, more), a(PAX, rest), k(N1, 0), k(N2, 0),
                                                                                               a(PAX, half), a(PAX, full), a(PAX, rest)]
+                    # an emulated key and a controller deflected across panics (key and axis): further reports in the same zone, the other zone, rest
+                    ev += [a(KAX, 255), a(CCX, 100), k(PKEY, 1), k(PKEY, 0), a(KAX, 250), a(CCX, -100), a(KAX, 3), a(PAX, full), a(KAX, 0), a(PAX, rest),
+                           a(KAX, 128), a(CCX, 0)]
                 elif variant % 3 == 1:
                     # the panic KEY is held while the panic axis is deflected, and the other way round
                     ev = [k(N1, 1), k(PKEY, 1), a(PAX, full), a(PAX, rest), k(PKEY, 0), a(PAX, more), k(PKEY, 1), k(PKEY, 0), a(PAX, rest), k(N1, 0)] + \
@@ -251,13 +259,15 @@ class C13A(DevProp):
                             ev.append(a(OAX, rng.choice([-1, 0, 1])))
                         elif r < 0.5:
                             ev.append(a(CCX, rng.randint(-128, 127)))
+                        elif r < 0.56:
+                            ev.append(a(KAX, rng.choice([0, 3, 128, 250, 255])))
                         elif r < 0.6:
                             ev += tap(rng.choice([MUP, MDN, CHU]))
                         else:
                             c = rng.choice([N1, N2, PKEY])
                             ev.append(k(c, 0 if c in down else 1))
                             down ^= {c}
-                    ev += [k(c, 0) for c in sorted(down)] + [a(PAX, rest), a(OAX, 0)]
+                    ev += [k(c, 0) for c in sorted(down)] + [a(PAX, rest), a(OAX, 0), a(KAX, 128)]
                 cases.append({"cfg": cfg, "abs": absl, "events": ev, "tag": "panic-axis-%d" % (variant % 3)})
         return cases
 
